@@ -58,7 +58,7 @@ def run(fx, R, tier):
     except sym.Unsupported as u:
         R.undecided('M1', 'RateMonitoring', 'symbolic reader: %s' % u)
         cst = None
-    for (rule_, fn_) in (('M2', lambda: check_update(fx, R, fu, ft)), ('M3', lambda: check_timeout(fx, R, ft, cst)), ('M6', lambda: check_history(fx, R, fu)),
+    for (rule_, fn_) in (('M2', lambda: check_update(fx, R, fu, ft)), ('M3', lambda: check_timeout(fx, R, ft, cst)), ('M6', lambda: check_history(fx, R, fu)), ('M7', lambda: check_period_width(fx, R, fu)),
                          ('M4', lambda: check_wiring(fx, R)), ('M5', lambda: check_classification(fx, R))):
         try:
             fn_()
@@ -179,6 +179,42 @@ def check_update(fx, R, fu, ft):
     sg = sym.Reader(fx).run(fg)
     R.form(len(sg) == 1 and isinstance(sg[0].ret, sp.Symbol) and sg[0].ret.name == 'this.rate_', 'M2', 'RateMonitoring::getRate', 'getRate returns %s' % [s.ret for s in sg],
             'returns the stored rate', fx.rel(fg['loc']), 'E-STATE')
+
+
+def check_period_width(fx, R, fu):
+    """M7: a period of the quantifier is up to 10 s = 1e10 ns (34 bits).  Every integer that carries a period - the value returned by
+    durationToNanoSecond, the locals initialised from it, the elements of the period store, the running sum - must be 64 bits wide."""
+    import re
+    from ..tree import strip_casts
+    rec = fx.records.get('romea::core::RateMonitoring') or {}
+    bad = []
+    for fl_ in rec.get('fields', []):
+        ts = (fl_['t'].get('s') or '')
+        if fl_['name'] in ('periods_', 'periodsSum_', 'lastPeriodInNanoSecond_') or 'period' in fl_['name'].lower():
+            mm = re.search(r'<\s*((?:unsigned )?(?:int|short|char|long long|long|std::int\d+_t|int\d+_t|unsigned))\b', ts)
+            elem = mm.group(1) if mm else (ts if fl_['t'].get('c') == 'int' else None)
+            if elem in ('int', 'unsigned int', 'unsigned', 'short', 'unsigned short', 'char', 'int32_t', 'std::int32_t', 'int16_t', 'std::int16_t') or (fl_['t'].get('c') == 'int' and (fl_['t'].get('bits') or 64) < 64):
+                bad.append(('the member %s has type %s' % (fl_['name'], ts), rec.get('loc')))
+    tainted = set()
+    for x in walk(fu['body']):
+        if isinstance(x, dict) and x.get('k') == 'Decl':
+            for v in x['vars']:
+                init = v.get('init')
+                if init is None:
+                    continue
+                src = any(isinstance(y, dict) and ((y.get('k') == 'Call' and 'durationToNanoSecond' in (y.get('fn') or '')) or (y.get('k') == 'Ref' and y.get('id') in tainted)) for y in walk(init))
+                if src:
+                    tainted.add(v['id'])
+                    if v['t'].get('c') == 'int' and (v['t'].get('bits') or 64) < 64:
+                        bad.append(('the local %s (%s) receives a period in nanoseconds' % (v['name'], v['t'].get('s')), v.get('loc')))
+        if isinstance(x, dict) and x.get('k') == 'Cast' and x.get('ck') == 'IntegralCast' and (x.get('t') or {}).get('bits', 64) < 64 and 'cv' not in x:
+            if any(isinstance(y, dict) and ((y.get('k') == 'Call' and 'durationToNanoSecond' in (y.get('fn') or '')) or (y.get('k') == 'Ref' and y.get('id') in tainted)) for y in walk(x.get('e'))):
+                bad.append(('a period in nanoseconds is converted to %s' % (x['t'].get('s'),), x.get('loc')))
+    if bad:
+        R.violated('M7', 'RateMonitoring:period-width', '%s: periods of the quantifier go up to 10 s = 1e10 ns, which needs 34 bits; in 32 bits every period above 2.147 s wraps (modulo 4.295 s), the running sum '
+                   'and the rate are wrong - possibly negative - for the W stamps that period stays in the window' % bad[0][0], fx.rel(bad[0][1] or fu['loc']), 'E-INT')
+    else:
+        R.holds('M7', 'RateMonitoring:period-width', 'every integer that carries a period (store elements, running sum, locals of update) is 64 bits wide', fx.rel(fu['loc']), 'E-INT')
 
 
 def check_history(fx, R, fu):
